@@ -81,3 +81,23 @@ Theorem C19_far_surface_wake_leg_induction_bounded_by_inverse_distance :
     dot u u = 1 -> 0 < p -> p * p <= dot r r - dot u r * dot u r -> Rabs (semi u r d) <= 1 / (2 * PI * p).
 Proof. exact semi_decay. Qed.
 Print Assumptions C19_far_surface_wake_leg_induction_bounded_by_inverse_distance.
+
+(* ---- the MPhys wrapper chain connects the same variables as AeroPoint (Real/WiringIso.v): a renaming of system paths
+   (solver.solver. -> aero.aero_states., funcs.<surface>. -> aero.<surface>_perf., ivc.angle_of_attack -> flow.alpha, ...) maps
+   the data-flow graph of the canonical MPhys model onto that of the canonical AeroPoint model, connection for connection
+   (123 of them); outside the correspondence are only the (de)multiplexers and the t_over_c input of the drag estimates.
+   Both graphs are regenerated from the live OpenMDAO problems on every run (C19_wiring_of_*_is_the_reviewed_one). ---- *)
+From Coq Require Import String Bool.
+From OAS Require Import WiringIso.
+Theorem C19_mphys_wiring_is_aeropoint_wiring :
+  subset image core_aero = true /\ subset core_aero image = true /\
+  List.length core_mphys = List.length core_aero /\ (0 < List.length core_mphys)%nat.
+Proof. exact mphys_wiring_is_aeropoint_wiring. Qed.
+Print Assumptions C19_mphys_wiring_is_aeropoint_wiring.
+
+Theorem C19_mphys_compressible_wiring_contains_aeropoint_wiring :
+  subset core_aero_c image_c = true /\
+  forallb (fun x => orb (existsb (pair_eqb x) core_aero_c) (contains "tail" (fst x))) image_c = true /\
+  (0 < List.length core_aero_c)%nat.
+Proof. exact mphys_compressible_wiring_contains_aeropoint_wiring. Qed.
+Print Assumptions C19_mphys_compressible_wiring_contains_aeropoint_wiring.
